@@ -1,5 +1,6 @@
 import ParryModel.Field
 import ParryModel.C12.Lemmas6
+import ParryModel.C12.Lemmas7
 /-!
 # C12 theorems, eighth pass: the 3-D quickhull (`Hull3.lean`, tied index-for-index to `try_convex_hull`), for **every** `Num`
 instance (`Float` included): the statements are about facet links and indices, never about arithmetic.
@@ -80,6 +81,17 @@ theorem silhouette_entries_sound (ts : Array (Facet K)) (pts : Array (V3 K)) (po
       (tAt ts a).seenBy point pts = false ∧ (tAt s.ts ((tAt ts a).adj.get j)).valid = false := by
   obtain ⟨h1, h2⟩ := silhouetteStep_inv ts pts point i hT hi hv
   exact ⟨h1.shr, h2, h1.out⟩
+
+/-- **completeness of the silhouette**: from a `Twin` state, after `compute_silhouette` every half-edge `(a, j)` of a facet that is
+still valid whose neighbour across `j` has been removed IS listed in the silhouette (the recursion's fuel `triangles.len() + 1`
+is never exhausted: its depth is bounded by the number of valid facets). Together with `silhouette_entries_sound` the silhouette
+is, as a set, exactly the boundary of the removed region. -/
+theorem silhouette_complete (ts : Array (Facet K)) (pts : Array (V3 K)) (point i : Nat) (hT : Twin ts) (hi : i < ts.size)
+    (hv : (tAt ts i).valid = true) :
+    ∀ a, a < (silhouetteStep pts point i ts).ts.size → (tAt (silhouetteStep pts point i ts).ts a).valid = true → ∀ j, j < 3 →
+      (tAt (silhouetteStep pts point i ts).ts ((tAt (silhouetteStep pts point i ts).ts a).adj.get j)).valid = false →
+      ∃ q : Nat, (silhouetteStep pts point i ts).out[q]? = some (a, j) :=
+  silhouetteStep_complete ts pts point i hT hi hv
 
 /-- **closed form of the linking loop of `attach_and_push_facets`**: the old facets keep everything but the links of the silhouette
 half-edges, which now point to the new facet `ts.size + q` (edge 1); new facet `q` is valid, is `(point, second, first)` of
